@@ -3,7 +3,7 @@
 # confirms a seeded change: applies, demo fails with / passes without, repo tests still pass, then runs the check.
 set -u
 dir=$(realpath "$1"); pid=$2; skip=${3:-}
-d=/tmp/mut/eval_$$; mkdir -p /tmp/mut; rm -rf "$d"
+d=/tmp/mut/eval_$$; v=/tmp/mut/verif_$$; mkdir -p /tmp/mut; rm -rf "$d"
 git -C /repo worktree add --detach "$d" HEAD >/dev/null 2>&1 || { echo "worktree failed"; exit 2; }
 cd "$d"
 PYTHONPATH="$d" timeout 600 /venv/bin/python "$dir/demo.py" >/tmp/mut/demo_clean_$$.log 2>&1; rc_clean=$?
@@ -16,7 +16,7 @@ if [ "$skip" != notests ]; then
   echo "tests with the change: $passed $failed"
   git checkout -- tests 2>/dev/null
 fi
-AEGEAN_REPO="$d" /verif/check "$pid" quick 2>&1 | tail -6; rc=${PIPESTATUS[0]}
+rsync -a --delete --exclude=.git --exclude="work/*" /verif/ "$v/" && AEGEAN_REPO="$d" "$v/check" "$pid" quick 2>&1 | tail -6; rc=${PIPESTATUS[0]}
 cd /; git -C /repo worktree remove --force "$d"
-PYTHONPATH=/repo /venv/bin/python /verif/tools/translate.py --repo /repo >/dev/null 2>&1
+rm -rf "$v"
 echo "check exit=$rc"
